@@ -318,9 +318,10 @@ class X12Reader(X12Base):
             if src_file_obj == '-':
                 self.fd_in = sys.stdin
             else:
-                # X12 is ASCII: any other byte is read as a replacement character and
-                # reported as an invalid character where it stands
-                self.fd_in = open(src_file_obj, 'r', encoding='ascii', errors='replace')
+                # Read the file as it is: no newline translation (a CR may be a
+                # delimiter or data) and one character per byte (X12 is ASCII; any
+                # other byte is reported as an invalid character where it stands)
+                self.fd_in = open(src_file_obj, 'r', encoding='latin-1', newline='')
                 self.need_to_close = True
         X12Base.__init__(self)
         try:
